@@ -31,7 +31,8 @@ META = {
               "handler entries/exits)."),
         assumptions=["sources yield non-decreasing times and derived events are stamped >= now (the statement's premise)",
                      "handlers are observed through their own entry/exit records; the dispatcher is not instrumented"],
-        probes_expected=["pool_saturated", "cross_source_tie", "derived_event", "handler_raised", "dup_subscription"],
+        probes_expected=["pool_saturated", "cross_source_tie", "derived_event", "handler_raised", "dup_subscription",
+                         "dup_subscription_bound_method"],
         states_measure="distinct (events in flight, handlers in flight, pool size) triples at handler entry"),
     "C13": dict(
         engine="dispsim", level="exploration", components=_COMPONENTS,
@@ -213,24 +214,45 @@ def run(tape, prop, tier):
                     raise RuntimeError("handler boom")
             return h
 
+        class Strategy:
+            """handlers as bound methods: each attribute access yields a new, equal, not identical callable"""
+            def __init__(self, fn):
+                self._fn = fn
+
+            async def on_event(self, ev):
+                await self._fn(ev)
+
         hid = 0
         for i, s in enumerate(srcs + ders):
             for (dup,) in nh[i]:
                 hid += 1
                 h = mk_handler(hid, "src")
                 subs[i].append(hid)
+                if hid % 2 == 0:
+                    st_ = Strategy(h)
+                    d.subscribe(s, st_.on_event)
+                    if dup:
+                        d.subscribe(s, st_.on_event)
+                        res.probes["dup_subscription_bound_method"] += 1
+                    continue
                 d.subscribe(s, h)
                 if dup:
                     d.subscribe(s, h)
                     res.probes["dup_subscription"] += 1
-        for _ in range(npre):
+        for k_ in range(npre):
             hid += 1
             pres.append(hid)
-            d.subscribe_all(mk_handler(hid, "pre"), front_run=True)
-        for _ in range(npost):
+            st_ = Strategy(mk_handler(hid, "pre"))
+            d.subscribe_all(st_.on_event, front_run=True)
+            if k_ == 0 and nh[0][0][0]:
+                d.subscribe_all(st_.on_event, front_run=True)      # duplicate catch-all subscription
+        for k_ in range(npost):
             hid += 1
             posts.append(hid)
-            d.subscribe_all(mk_handler(hid, "post"))
+            st_ = Strategy(mk_handler(hid, "post"))
+            d.subscribe_all(st_.on_event)
+            if k_ == 0 and nh[0][0][0]:
+                d.subscribe_all(st_.on_event)
         for when_s, row in pre_jobs:
             sched(when_s, row, "pre")
         try:
